@@ -103,12 +103,22 @@ func nilGuarded(in ssa.Instruction, text string) bool {
 
 // walkTape: the static visit sequence of one Walk case from the recorded call events.
 func walkTape(ex *Exec, fn *ssa.Function, walkKey, visitKey string) []walkEv {
-	_, back := blockOrder(fn)
-	loops := findLoops(fn, back)
+	loopsOf := map[*ssa.Function]map[*ssa.BasicBlock]map[*ssa.BasicBlock]bool{}
 	var out []walkEv
 	for _, ev := range ex.trace {
-		if ev.Kind != "call" || ev.Depth != 0 {
+		// depth 1: the per-type switch may sit in a helper that Walk calls (inlined, it has no contract of its own)
+		if ev.Kind != "call" || ev.Depth > 1 || ev.Instr == nil {
 			continue
+		}
+		pf := ev.Instr.Parent()
+		if pf == nil || (ev.Depth == 1 && (pf.Pkg != fn.Pkg || pf.Parent() != nil)) {
+			continue
+		}
+		loops, ok := loopsOf[pf]
+		if !ok {
+			_, back := blockOrder(pf)
+			loops = findLoops(pf, back)
+			loopsOf[pf] = loops
 		}
 		var args []ssa.Value
 		switch c := ev.Instr.(type) {
@@ -131,7 +141,11 @@ func walkTape(ex *Exec, fn *ssa.Function, walkKey, visitKey string) []walkEv {
 				best, bestN := "", -1
 				for h, body := range loops {
 					if body[ev.Instr.Block()] && (bestN < 0 || len(body) < bestN) {
-						if s := loopRangeSrc(h); s != "" {
+						s := loopRangeSrc(h)
+						if s == "" {
+							s = indexLoopSrc(h, body, args[1])
+						}
+						if s != "" {
 							best, bestN = s, len(body)
 						}
 					}
@@ -418,4 +432,175 @@ func init() {
 			"exactly-once and parents-before-children follow by induction over the tree from the per-type sequences (acyclic trees)",
 		},
 	})
+}
+
+// indexLoopSrc: the slice an index loop walks element by element — `for i := 0; i < len(x); i++ { …x[i]… }`, with the
+// bound possibly held in a local (`end := len(x)`). Accepted only when the loop has the discipline a range loop has by
+// construction: the counter starts at 0 before the loop, its only store inside the loop is counter+1 in the block all
+// back edges come from, the bound is len(x) taken before the loop, and the element handed on is x[counter].
+func indexLoopSrc(h *ssa.BasicBlock, body map[*ssa.BasicBlock]bool, elem ssa.Value) string {
+	iff, ok := h.Instrs[len(h.Instrs)-1].(*ssa.If)
+	if !ok {
+		return ""
+	}
+	cond, ok := iff.Cond.(*ssa.BinOp)
+	if !ok || cond.Op != token.LSS {
+		return ""
+	}
+	cl, ok := cond.X.(*ssa.UnOp)
+	if !ok {
+		return ""
+	}
+	counter, ok := cl.X.(*ssa.Alloc)
+	if !ok {
+		return ""
+	}
+	// the bound: len(x) directly or through a local stored once, outside the loop
+	var lenCall *ssa.Call
+	switch y := cond.Y.(type) {
+	case *ssa.Call:
+		lenCall = y
+	case *ssa.UnOp:
+		if a, ok := y.X.(*ssa.Alloc); ok {
+			n := 0
+			for _, r := range *a.Referrers() {
+				if st, ok := r.(*ssa.Store); ok && st.Addr == ssa.Value(a) {
+					n++
+					if c, ok := st.Val.(*ssa.Call); ok && !body[st.Block()] {
+						lenCall = c
+					}
+				}
+			}
+			if n != 1 {
+				return ""
+			}
+		}
+	}
+	if lenCall == nil {
+		return ""
+	}
+	// like a range loop, the length is taken once, before the loop
+	if b, ok := lenCall.Call.Value.(*ssa.Builtin); !ok || b.Name() != "len" || body[lenCall.Block()] {
+		return ""
+	}
+	xl, ok := lenCall.Call.Args[0].(*ssa.UnOp)
+	if !ok {
+		return ""
+	}
+	src := sliceSrcText(xl.X)
+	if src == "" {
+		return ""
+	}
+	// counter discipline
+	var latch *ssa.BasicBlock
+	for _, p := range h.Preds {
+		if body[p] {
+			if latch != nil && latch != p {
+				return ""
+			}
+			latch = p
+		}
+	}
+	inits, incs := 0, 0
+	for _, r := range *counter.Referrers() {
+		st, ok := r.(*ssa.Store)
+		if !ok || st.Addr != ssa.Value(counter) {
+			continue
+		}
+		if body[st.Block()] {
+			add, ok := st.Val.(*ssa.BinOp)
+			if !ok || add.Op != token.ADD || st.Block() != latch {
+				return ""
+			}
+			ld, ok := add.X.(*ssa.UnOp)
+			c, ok2 := add.Y.(*ssa.Const)
+			if !ok || !ok2 || ld.X != ssa.Value(counter) || c.Value == nil || c.Int64() != 1 {
+				return ""
+			}
+			incs++
+		} else {
+			c, ok := st.Val.(*ssa.Const)
+			if !ok || c.Value == nil || c.Int64() != 0 {
+				return ""
+			}
+			inits++
+		}
+	}
+	if inits != 1 || incs != 1 {
+		return ""
+	}
+	// the element handed on is x[counter] (possibly boxed into the Node interface)
+	for k := 0; k < 3; k++ {
+		switch y := elem.(type) {
+		case *ssa.MakeInterface:
+			elem = y.X
+		case *ssa.ChangeType:
+			elem = y.X
+		case *ssa.ChangeInterface:
+			elem = y.X
+		}
+	}
+	el, ok := elem.(*ssa.UnOp)
+	if !ok {
+		return ""
+	}
+	ia, ok := el.X.(*ssa.IndexAddr)
+	if !ok {
+		return ""
+	}
+	il, ok := ia.Index.(*ssa.UnOp)
+	if !ok || il.X != ssa.Value(counter) {
+		return ""
+	}
+	sl, ok := ia.X.(*ssa.UnOp)
+	if !ok {
+		return ""
+	}
+	// like a range loop, the slice header is read once: both the length and the elements come from one local that is
+	// assigned exactly once (a parameter, or list := n.List)
+	la, ok := sl.X.(*ssa.Alloc)
+	if !ok || xl.X != ssa.Value(la) {
+		return ""
+	}
+	nst := 0
+	for _, r := range *la.Referrers() {
+		if st, ok := r.(*ssa.Store); ok && st.Addr == ssa.Value(la) {
+			nst++
+		}
+	}
+	if nst != 1 {
+		return ""
+	}
+	if esrc := sliceSrcText(sl.X); esrc != src {
+		return ""
+	}
+	return src
+}
+
+// sliceSrcText: text of the slice held at an address — a field (n.List), or a local; a local that is assigned exactly
+// once, from a field, stands for that field (list := n.List).
+func sliceSrcText(addr ssa.Value) string {
+	if t, ok := addrText(addr); ok {
+		return t
+	}
+	a, ok := addr.(*ssa.Alloc)
+	if !ok {
+		return ""
+	}
+	var only ssa.Value
+	n := 0
+	for _, r := range *a.Referrers() {
+		if st, ok := r.(*ssa.Store); ok && st.Addr == ssa.Value(a) {
+			n++
+			only = st.Val
+		}
+	}
+	if n == 1 {
+		if ld, ok := only.(*ssa.UnOp); ok {
+			if t, ok := addrText(ld.X); ok {
+				return t
+			}
+		}
+	}
+	return a.Comment
 }
